@@ -21,6 +21,10 @@ def lift(v):
     if isinstance(v, bool):
         v = int(v)
     if isinstance(v, int):
+        if type(v) is not int:
+            hook = getattr(v, '_sx_on_use', None)      # host constants (C18) record that they were consulted
+            if hook is not None:
+                hook()
         if v.bit_length() > MAXMAG:
             raise Unsupported('constant exceeds the %d-bit integer model' % W)
         return z3.BitVecVal(v, W), v.bit_length(), v >= 0
